@@ -7,20 +7,16 @@ import subprocess
 ROOT = os.path.dirname(os.path.dirname(os.path.abspath(__file__)))
 ALL = ["C%02d" % i for i in range(1, 21)]
 
-CHECKS = {
-    "C15": dict(
-        category="model_checking",
-        text="TLC explores the complete state graph of the tracker (MaxTracker.tla, propagation loop transcribed "
-             "statement by statement) for M=1..8 (quick) / 1..10 (thorough) and checks that it refines 'per-slot minima "
-             "and their maximum'; every transition of those graphs is replayed on the real tracker and leaves, maximum, "
-             "is_update_possible and reset are compared; random update/reset sequences at M up to 5000 are recorded from "
-             "the real tracker and validated by TLC against the abstract layer (TraceMaxTracker.tla).",
-        design_ref="DESIGN.md section 4, C15",
-        note="trusted: TLC, the guarded wrapper verif::VerifMaxTracker (forwarding only), the order isomorphism between "
-             "model values and reals; exhaustive only for the listed (M,V)",
-        technique="TLA+ spec + TLC complete state graph, transition-by-transition replay into the Rust tracker, TLC trace validation of recorded runs",
-    ),
-}
+import importlib
+import sys
+sys.path.insert(0, os.path.join(ROOT, "lib"))
+
+CHECKS = {}
+for _pid in ALL:
+    if os.path.exists(os.path.join(ROOT, "lib", _pid.lower() + ".py")):
+        _m = importlib.import_module(_pid.lower())
+        if getattr(_m, "MANIFEST", None):
+            CHECKS[_pid] = _m.MANIFEST
 
 NOT_YET = "check not built yet (work in progress; see DESIGN.md for the planned TLA+ model and binding)"
 NA = {}
@@ -31,7 +27,7 @@ def main():
                            capture_output=True, text=True).stdout.strip().splitlines()
     man = dict(
         version=1,
-        setup_cmd="cd /verif/harness && cp -n /repo/Cargo.lock Cargo.lock; cargo build --release --offline && cd /verif && ./check selftest",
+        setup_cmd="cd /verif/harness && cp -n /repo/Cargo.lock Cargo.lock; cargo build --release --offline --bins && cd /verif && ./check selftest",
         hooks=dict(
             guard="--cfg probminhash_verif (rustc cfg flag, set in /verif/harness/.cargo/config.toml)",
             enable="cd /verif/harness && cargo build --release --offline   # rustflags = [\"--cfg\", \"probminhash_verif\"] come from harness/.cargo/config.toml; the harness depends on /repo by path",
